@@ -215,6 +215,17 @@ type sysRun struct {
 	hullRace     bool       // the writer of the last batch is parked before onWriteCIndex (deterministic replay of F46)
 }
 
+// linkCheck flags the model-to-model links the driver evaluates on writes and rebuilds (PartHist / PipeHist / flat rebuild)
+func (r *sysRun) linkCheck() func(string) {
+	in := r.inputWith(nil)
+	sec := r.section
+	return func(ans string) {
+		if strings.Contains(strings.ToLower(ans), "differs") {
+			res.Mismatch(vh.Mismatch{Section: sec, Function: "model links (PartHist / PipeHist history models, flat rebuild) vs the pipeline model", Input: in, Impl: "pipeline model", Model: short(ans)})
+		}
+	}
+}
+
 func (r *sysRun) ask(line string, check func(ans string)) {
 	r.lines = append(r.lines, line)
 	r.checks = append(r.checks, check)
@@ -416,12 +427,15 @@ func (r *sysRun) doWrite(o op, rng *vh.Rng) bool {
 		if strings.Contains(ans, "PARTHIST-DIFFERS") {
 			res.Mismatch(vh.Mismatch{Section: r.section, Function: "Points-level partition model of the history theorem (PartHist: pieces → ChunkHist.onWrite) vs the pipeline model (write loop → cindex on the tree)", Input: inPH, Impl: "pipeline model", Model: short(ans)})
 		}
+		if strings.Contains(ans, "PIPEHIST-DIFFERS") {
+			res.Mismatch(vh.Mismatch{Section: r.section, Function: "history model of the end-to-end theorem (PipeHist: one CIndex.onWrite per piece with the call's iwrapper hull) vs the pipeline ops (WriteLoop.serviceWrite → OnWrite calls)", Input: inPH, Impl: "pipeline model", Model: short(ans)})
+		}
 	})
 	// a chunk answered ErrTmIndexCorrupted is rebuilt by the asynchronous rebuilder (awaited above); the driver does the same
 	inW := r.inputWith(nil)
 	r.ask("rw.autorebuild", func(ans string) {
 		if ans != "ok" {
-			res.Mismatch(vh.Mismatch{Section: r.section, Function: "Points-level rebuild (RebuildHist.rebuildPts) vs the tree-level rebuild model", Input: inW, Impl: "tree", Model: ans})
+			res.Mismatch(vh.Mismatch{Section: r.section, Function: "model links at a rebuild: Points-level rebuild (RebuildHist.rebuildPts) = rebuilt tree; history model PipeHist = pipeline state", Input: inW, Impl: "tree", Model: ans})
 		}
 	})
 	r.compareIndexState("write", rng)
@@ -465,7 +479,7 @@ func (r *sysRun) doRebuild(o op, rng *vh.Rng) bool {
 	inR := r.inputWith(nil)
 	r.ask("rw.rebuild all", func(ans string) {
 		if ans != "ok" {
-			res.Mismatch(vh.Mismatch{Section: r.section, Function: "Points-level rebuild (RebuildHist.rebuildPts) vs the tree-level rebuild model", Input: inR, Impl: "tree", Model: ans})
+			res.Mismatch(vh.Mismatch{Section: r.section, Function: "model links at a rebuild: Points-level rebuild (RebuildHist.rebuildPts) = rebuilt tree; history model PipeHist = pipeline state", Input: inR, Impl: "tree", Model: ans})
 		}
 	})
 	r.compareIndexState("rebuild", rng)
@@ -775,6 +789,10 @@ func (r *sysRun) doQuery(o op, specOnly bool) {
 		eq := f["got"] == gotS
 		if !eq && qerr == "" {
 			res.Mismatch(vh.Mismatch{Section: r.section, Function: "ranged read (write loop → cindex → chkSelector → JIterator → fiterator)", Input: in, Impl: short(gotS), Model: short(f["got"])})
+		}
+		if ag, ok := f["absgot"]; ok && ag != gotS && qerr == "" {
+			// the model the end-to-end theorem is about, compared with the real code directly (not only through RangedIter.scan)
+			res.Mismatch(vh.Mismatch{Section: r.section, Function: "ranged read of the real code vs PipeRead.absScan (statuses of the pipeline model folded over the chunks + range re-check: the model of range_eq_filter_pipeline)", Input: in, Impl: short(gotS), Model: short(ag)})
 		}
 		if f["abs"] == "0" {
 			res.Mismatch(vh.Mismatch{Section: r.section, Function: "abstract scan of the partition theorem (PartScan: windows folded over chunks + range re-check) vs the executable pipeline model", Input: in, Impl: short(gotS), Model: "PartScan.scanAll differs from RangedIter.scan: " + short(f["got"])})
